@@ -24,7 +24,7 @@ impl C09 {
         C09 {
             tier,
             seed,
-            per_family: scaled(tier.pick(400, 8_000), scale),
+            per_family: scaled(tier.pick(2_500, 40_000), scale),
         }
     }
 }
